@@ -1,6 +1,6 @@
 import Updog.Generated
 namespace Updog.Facts
 open Updog.Generated
-theorem C16_facts : openFileFlags = true ∧ flushFailIfExists = true ∧ openReadOnlyMustExist = true ∧ readPathViewOnly = true ∧
+theorem C16_facts : openFileFlags = true ∧ flushFailIfExists = true ∧ flushWritesInPlace = true ∧ openReadOnlyMustExist = true ∧ readPathViewOnly = true ∧
     createShape = true := by decide
 end Updog.Facts
